@@ -293,7 +293,7 @@ def c07_rejected_leaves_no_trace(tier, seed):
                     'the prefix; non-trivial = distinct (state, rejected call)')
     from .core import call_alphabet
     alpha = call_alphabet()
-    for cls, removal, h in histories(tier, seed, modes=(True, False), n_random=150 if tier == 'quick' else 3000):
+    for cls, removal, h in histories(tier, seed, modes=(True, False), n_random=60 if tier == 'quick' else 3000):
         G, M, outs = run_history(cls, removal, h)
         if any(o[0] != o[1] for o in outs):
             continue
@@ -347,6 +347,42 @@ def c07_rejected_leaves_no_trace(tier, seed):
                     if dump(G3) != dump(G4):
                         col.violation('C07.bulk_prefix_state', cls, removal, h + [('from', ebunch, ls - 1, None)],
                                       'state after the failing bulk call differs from the state after its preceding elements')
+        # every bulk helper (method and module-level form) failing part-way, or rejected for a missing t: the state must be the
+        # state after the elements that preceded the failing one (computed by single add_interaction calls on a copy)
+        if ls is not None:
+            other = [n for n in (1, 2, 3) if n not in k] or [3]
+            a, b = k
+            nl = [other[0], a, b, 4, 5]                 # pairs (other,a) ok?, (a,b) rejected at ls-1, then (b,4), (4,5) never reached
+            for kind in ('path', 'star', 'cycle', 'dn.path', 'dn.star', 'dn.cycle'):
+                for tt in (ls - 1, None):
+                    nodes_ = nl if 'star' not in kind else [a, 5, b, 4]
+                    if 'path' in kind:
+                        pairs = list(zip(nodes_[:-1], nodes_[1:]))
+                    elif 'star' in kind:
+                        pairs = [(nodes_[0], n) for n in nodes_[1:]]
+                    else:
+                        pairs = list(zip(nodes_, nodes_[1:] + [nodes_[0]]))
+                    Gx, Ge = copy.deepcopy(G), copy.deepcopy(G)
+                    if tt is not None:
+                        for (p, q) in pairs:
+                            try:
+                                Ge.add_interaction(p, q, tt)
+                            except Exception:
+                                break
+                    try:
+                        if kind.startswith('dn.'):
+                            getattr(dn, 'add_' + kind[3:])(Gx, list(nodes_), tt)
+                        elif hasattr(Gx, 'add_' + kind):
+                            getattr(Gx, 'add_' + kind)(list(nodes_), tt)
+                        else:
+                            continue
+                    except Exception:
+                        pass
+                    col.seen((sk, kind, tt is None), True)
+                    if dump(Gx) != dump(Ge):
+                        col.violation('C07.bulk_prefix_state', cls, removal, h + [(kind, list(nodes_), tt)],
+                                      'state after the %s call differs from the state after the elements that preceded the failing one (nodes %r vs %r)'
+                                      % ('rejected (t missing)' if tt is None else 'partly failing', sorted(map(repr, Gx.nodes())), sorted(map(repr, Ge.nodes()))))
         if col.full():
             break
     return col.result(bound='<=3 nodes, instants 0..4, histories <=4 calls, <=14 rejected calls per state')
